@@ -1,7 +1,8 @@
 """C14 — multi-threaded execution produces the same results as single-threaded.  (DESIGN.md section 6, C14)
 
 R1  MC_Par: the task decompositions of the parallel code paths as written in the code (Par.tla: batch_iter_mut!, the bit-reversal
-    permutation, the Merkle subtree construction) for every length 2^3..2^MaxLog (plus non-powers of two for the batch iterator)
+    permutation, the Merkle subtree construction, the row-matrix transposition, the constraint-evaluation fragments with their
+    periodic-value lookup) for every length 2^3..2^MaxLog (plus non-powers of two for the batch iterator)
     and thread-pool sizes 1..64: write sets pairwise disjoint, no task reads what another writes, the union of the work is the
     serial work.
 Replay the harness is built twice from the same sources, without and with the `concurrent` feature; every deterministic result
@@ -25,6 +26,13 @@ def run(tier, seed):
                        timeout=3300, xmx="6g")
     if not r.ok:
         v.violation("model/" + str(r.violation), "Par.tla: a task decomposition is not a disjoint cover of the serial work (%s)" % r.violation, {"tlc": r.out[-3000:]})
+    # non-vacuity: the transposition without the cap on the number of batches (the code before fix 3ec6385) and a periodic-value
+    # lookup by the fragment-local row index must both be refuted
+    for cfg, inv in (("MC_Par_uncapped", "Inv"), ("MC_Par_locallookup", "InvLocalLookup")):
+        rv = vlib.run_tlc("MC_Par", cfg, workers=4, env={"PAR_MAXLOG": 10, "PAR_THREADS": "classes"}, timeout=1200, xmx="4g", tag=cfg)
+        if rv.violation != inv:
+            raise vlib.ToolError("self-test: variant %s not refuted (%s)" % (cfg, rv.violation))
+    log("[tlc] variants refuted: uncapped transposition batches, periodic lookup by fragment-local index")
     ser = vlib.build_harness("rel")
     con = vlib.build_harness("rel", features=["concurrent"])
     extra = ["--thorough"] if tier == "thorough" else []
